@@ -115,7 +115,7 @@ PLAN = {
                            'agreement with eval_f64 on real operands']),
     'C09': dict(verus=['number-ast', 'number-tok', 'number-glue', 'number-parser'], kani=['number-ast', 'number-l4'], level='proof', assumptions=F64_ASSUME + KANI_ASSUME + TOK_ASSUME,
                 unclaimed=['bit-level meaning of the IEEE primitives (A-ieee in the Verus unit: each is an uninterpreted total function; Kani proves + - * unary minus abs and the rounding functions bit-exact, / and % on a bounded domain)']),
-    'C15': dict(verus=['i64-ast', 'f64-ast', 'number-ast', 'i64number-agree', 'f64number-agree'] + PARSERS + GLUES + TOKS, kani=['i64-ast', 'number-ast', 'f64-ast', 'number-l4'], tables_agree=True, level='proof',
+    'C15': dict(verus=['i64-ast', 'f64-ast', 'number-ast', 'complex-ast', 'decimal-ast', 'i64number-agree', 'f64number-agree'] + PARSERS + GLUES + TOKS, kani=['i64-ast', 'number-ast', 'f64-ast', 'number-l4'], tables_agree=True, level='proof',
                 assumptions=AST_ASSUME + F64_ASSUME + KANI_ASSUME + PARSER_ASSUME + [
                     'agreement is obtained as a corollary, not as one relational theorem: (1) eval_i64 returns Ok(v) only for the exact integer v (Verus, all trees) and eval_number returns Integer(exact) on Integer operands whenever it fits (Kani, per constructor), '
                     '(2) every Float / mixed arm of eval_number has the numeric value of the IEEE operation that the same arm of eval_f64 applies (Kani, per constructor, bit-exact), '
